@@ -19,8 +19,9 @@ from .exceptions import DeviceError
 
 logger = logging.getLogger(__name__)
 
-# what INPUT accepts as a number: Python's int() and float() also take
-# texts like "1_0", "inf", "nan" or non-ASCII digits, which are not numbers
+# what INPUT and READ accept as a number: Python's int() and float()
+# also take texts like "1_0", "inf", "nan" or non-ASCII digits, which
+# are not numbers
 INPUT_INTEGER_RE = re.compile(r'[+-]?[0-9]+')
 INPUT_FLOAT_RE = re.compile(
     r'[+-]?([0-9]+\.?[0-9]*|\.[0-9]+)([eE][+-]?[0-9]+)?')
@@ -454,6 +455,16 @@ class DataDevice(Device):
         self.data_part = 0
         self.data_idx = 0
 
+    def _parse_number(self, s, regex, convert):
+        # int() and float() alone accept more than a DATA item may
+        # hold to be read into a numeric variable ("nan", "inf",
+        # "1_0", ...).
+        if s == Empty.value:
+            return convert(0)
+        if not regex.fullmatch(s):
+            raise ValueError(f'Not a number: {s}')
+        return convert(s)
+
     def _exec_read(self):
         data_type = self.cpu.pop(CellType.INTEGER)
         try:
@@ -466,16 +477,20 @@ class DataDevice(Device):
 
         try:
             if data_type == 1:
-                value = 0 if s == Empty.value else int(s)
+                value = self._parse_number(
+                    s, INPUT_INTEGER_RE, int)
                 self.cpu.push(CellType.INTEGER, value)
             elif data_type == 2:
-                value = 0 if s == Empty.value else int(s)
+                value = self._parse_number(
+                    s, INPUT_INTEGER_RE, int)
                 self.cpu.push(CellType.LONG, value)
             elif data_type == 3:
-                value = 0.0 if s == Empty.value else float(s)
+                value = self._parse_number(
+                    s, INPUT_FLOAT_RE, float)
                 self.cpu.push(CellType.SINGLE, value)
             elif data_type == 4:
-                value = 0.0 if s == Empty.value else float(s)
+                value = self._parse_number(
+                    s, INPUT_FLOAT_RE, float)
                 self.cpu.push(CellType.DOUBLE, value)
             elif data_type == 5:
                 value = '' if s == Empty.value else s
